@@ -125,7 +125,13 @@ class ReverseProxy(TcpUpstreamConnectionHandler, HttpWebServerBasePlugin):
             assert self.upstream
             try:
                 if not reuse:
-                    self.upstream.connect()
+                    try:
+                        self.upstream.connect()
+                    except Exception:
+                        # Don't leave a never connected upstream around, its
+                        # descriptors can neither be polled nor closed.
+                        self.upstream = previous
+                        raise
                     if self.choice.scheme == HTTPS_PROTO:
                         self.upstream.wrap(
                             text_(self.choice.hostname),
